@@ -203,15 +203,41 @@ func planClusterPushdown(opts *Opts, query *sql.Query) (core.FlatRowSource, erro
 	return addOrderLimitOffset(flat, query), nil
 }
 
+// indexOutsideParens finds the first occurrence of keyword that is outside of
+// any parentheses and quotes, i.e. that belongs to the outermost query and not
+// to a subquery or a string literal. It returns -1 if there is none.
+func indexOutsideParens(lowerSQL string, keyword string) int {
+	depth := 0
+	quote := byte(0)
+	for i := 0; i < len(lowerSQL); i++ {
+		c := lowerSQL[i]
+		switch {
+		case quote != 0:
+			if c == quote {
+				quote = 0
+			}
+		case c == '\'' || c == '"' || c == '`':
+			quote = c
+		case c == '(':
+			depth++
+		case c == ')':
+			depth--
+		case depth == 0 && strings.HasPrefix(lowerSQL[i:], keyword):
+			return i
+		}
+	}
+	return -1
+}
+
 func planClusterNonPushdown(opts *Opts, query *sql.Query) (core.FlatRowSource, error) {
 	// Remove group by, having, order by and limit from query
 	sqlString := query.SQL
 	crosstabString := concatForCrosstab(sqlString)
 	lowerSQL := strings.ToLower(sqlString)
-	indexOfGroupBy := strings.Index(lowerSQL, "group by ")
-	indexOfHaving := strings.Index(lowerSQL, "having ")
-	indexOfOrderBy := strings.Index(lowerSQL, "order by ")
-	indexOfLimit := strings.Index(lowerSQL, "limit ")
+	indexOfGroupBy := indexOutsideParens(lowerSQL, "group by ")
+	indexOfHaving := indexOutsideParens(lowerSQL, "having ")
+	indexOfOrderBy := indexOutsideParens(lowerSQL, "order by ")
+	indexOfLimit := indexOutsideParens(lowerSQL, "limit ")
 	if indexOfGroupBy > 0 {
 		sqlString = sqlString[:indexOfGroupBy]
 	} else if indexOfHaving > 0 {
